@@ -75,6 +75,11 @@ class UnitExporter:
                 return {"k": "v", "n": self.sym(e.name)}
             return {"k": "rd", "n": self.sym(e.name), "idx": [self.e(i) for i in e.idx]}
         if isinstance(e, LoopIR.Const):
+            if (e.type == T.bool) != isinstance(e.val, bool):
+                # a literal whose value contradicts its type (only a broken rewrite produces one): the machine
+                # traps when it is evaluated
+                self.features.add("illtyped-literal")
+                return {"k": "illtyped", "v": str(e.val)}
             if is_ctl_type(e.type) or isinstance(e.val, bool):
                 return {"k": "c", "v": e.val}
             return {"k": "c", "v": enc_const(e.val, self.mode)}
